@@ -643,6 +643,42 @@ let fdec (rest : string) : string =
               "wire=" ^ hexs (Stdlib.List.concat chunks) ^ " frames=" ^ Stdlib.String.concat "/" (Stdlib.List.map (fun c -> dec (strip c)) chunks)))
   | _ -> failwith "fdec: form"
 
+(* ---------- msg: the message codec at the level of sections ---------- *)
+let msg (rest : string) : string =
+  let ws = words rest in
+  let hexs (b : coq_N list) : string = Stdlib.String.concat "" (Stdlib.List.map (fun x -> Printf.sprintf "%02x" (int_of_n x)) b) in
+  let value_of_hex (h : string) : Value.value =
+    let bs = bytes_of_hex h in
+    match Dec.from_slice (nat_of_int (Stdlib.List.length bs + 1)) bs with
+    | Bytes.Ok (v, []) -> v
+    | _ -> failwith ("msg: section does not decode in the model: " ^ h) in
+  let ov k = let h = kv ws k in if h = "-" then None else Some (value_of_hex h) in
+  (* the implementation's sections are typed: re-encoded they carry their descriptor by code whatever form arrived *)
+  let canon v = match v with
+    | Value.VDescribed (d, x) -> (match Message.code_of_descriptor d with Some c -> Value.VDescribed (Value.DCode c, x) | None -> v)
+    | _ -> v in
+  let sec v = match Enc.enc_bytes (canon v) with Some b -> hexs b | None -> "ENCERR" in
+  let so = function None -> "-" | Some v -> sec v in
+  let show (m : Message.msg) : string =
+    "h=" ^ so m.Message.m_header ^ " da=" ^ so m.Message.m_da ^ " ma=" ^ so m.Message.m_ma ^ " p=" ^ so m.Message.m_props ^
+    " ap=" ^ so m.Message.m_ap ^ " body=" ^ (if m.Message.m_body = [] then "-" else Stdlib.String.concat "," (Stdlib.List.map sec m.Message.m_body)) ^
+    " f=" ^ so m.Message.m_footer in
+  let dec (bs : coq_N list) : string =
+    match Message.dec_message (nat_of_int (Stdlib.List.length bs + 1)) bs with
+    | Bytes.Ok m -> show m
+    | Bytes.Err _ -> "err"
+    | Bytes.Panic -> "PANIC"
+    | Bytes.OutOfFuel -> "OUTOFFUEL" in
+  match ws with
+  | "dec" :: hx :: _ -> dec (bytes_of_hex hx)
+  | "enc" :: _ ->
+      let body = let b = kv ws "body" in if b = "-" then [] else Stdlib.List.map value_of_hex (Stdlib.String.split_on_char ',' b) in
+      let m = { Message.m_header = ov "h"; m_da = ov "da"; m_ma = ov "ma"; m_props = ov "p"; m_ap = ov "ap"; m_body = body; m_footer = ov "f" } in
+      (match Message.enc_message m with
+       | Some b -> "enc=" ^ hexs b ^ " dec=" ^ dec b
+       | None -> "enc=ERR")
+  | _ -> failwith "msg: form"
+
 (* ---------- lifem: session lifecycle (C13) ---------- *)
 let lifem (rest : string) : string =
   let evs = split_on rest ';' in
@@ -1014,6 +1050,7 @@ let dispatch (line : string) : string =
        | "ldf" -> frame_ldf rest
        | "comp" -> comp rest
        | "fdec" -> fdec rest
+       | "msg" -> msg rest
        | "enc" -> codec_enc rest
        | "dec" -> codec_dec rest
        | "spec" -> codec_spec rest
